@@ -10,7 +10,7 @@ use serde::Serialize;
 use super::ast::{SqlRelation, SqlTransform};
 use crate::ir::pl::Ident;
 use crate::ir::rq::{
-    fold_table, CId, Compute, Relation, RelationColumn, RelationKind, RelationalQuery, RqFold, TId,
+    fold_relation, fold_table, CId, Compute, Relation, RelationColumn, RelationKind, RelationalQuery, RqFold, TId,
     TableDecl, TableRef, Transform,
 };
 use crate::sql::pq::positional_mapping::PositionalMapper;
@@ -38,6 +38,12 @@ pub struct AnchorContext {
     /// because many engines (SQLite, MySQL, SQL Server) match identifiers
     /// case-insensitively even when they are quoted.
     pub reserved_table_names: HashSet<String>,
+
+    /// Lower-cased names of every column the query mentions: the columns of
+    /// every table reference and the declared columns of every relation.
+    /// Generated column names stay clear of them regardless of letter case,
+    /// for the same reason.
+    pub reserved_column_names: HashSet<String>,
 
     pub cid: IdGenerator<CId>,
     pub tid: IdGenerator<TId>,
@@ -139,6 +145,23 @@ impl AnchorContext {
         }
     }
 
+    /// A new `_expr_N` name that does not clash, in any letter case, with a
+    /// column name the query mentions.
+    pub fn gen_col_name(&mut self) -> String {
+        loop {
+            let name = self.col_name.gen();
+            if !self.reserved_column_names.contains(&name.to_lowercase()) {
+                return name;
+            }
+        }
+    }
+
+    fn reserve_column_name(&mut self, col: &RelationColumn) {
+        if let RelationColumn::Single(Some(name)) = col {
+            self.reserved_column_names.insert(name.to_lowercase());
+        }
+    }
+
     /// Returns a new AnchorContext object based on a Query object. This method
     /// generates new IDs and names for tables and columns as needed.
     pub fn of(query: RelationalQuery) -> Result<(Self, Relation)> {
@@ -226,8 +249,11 @@ impl AnchorContext {
             }
         }
 
-        let entry = self.column_names.entry(cid);
-        Some(entry.or_insert_with(|| self.col_name.gen()))
+        if !self.column_names.contains_key(&cid) {
+            let name = self.gen_col_name();
+            self.column_names.insert(cid, name);
+        }
+        self.column_names.get(&cid)
     }
 
     /// verification hook: result of the preceding `ensure_column_name(cid)` call
@@ -421,7 +447,17 @@ impl RqFold for QueryLoader {
         Ok(compute)
     }
 
+    fn fold_relation(&mut self, relation: Relation) -> Result<Relation> {
+        for col in &relation.columns {
+            self.context.reserve_column_name(col);
+        }
+        fold_relation(self, relation)
+    }
+
     fn fold_table_ref(&mut self, table_ref: TableRef) -> Result<TableRef> {
+        for (col, _) in &table_ref.columns {
+            self.context.reserve_column_name(col);
+        }
         Ok(table_ref)
     }
 }
